@@ -75,8 +75,9 @@ def filter_triples(r, count):
             return Node('dict', (tuple(zip(gen_a.KEYS[:n], vals)), 'pickle')) if keyed else Node('list', (tuple(vals), 'pickle'))
         p = r.choice([('PModEq', 2, 0), ('PModEq', 3, 1), ('PLt', 4), ('PEq', vals[0] if vals else 0), ('PTrue',), ('PFalse',)])
         notp = ('PIn', tuple(sorted(set(v for v in vals if not __import__('harness.fnlib', fromlist=['x']).py_p(p)(v)))))
-        out.append(Node('filter', (('QP', p), True), [src()]))
-        out.append(Node('filter', (('QP', p), False), [src()]))
+        style = r.choice([0, 1, 2, 3, 4, 5])           # how the predicate spells true / false (truthiness counts)
+        out.append(Node('filter', (('QP', p), True, style), [src()]))
+        out.append(Node('filter', (('QP', p), False, style), [src()]))
         out.append(Node('catch', (('EFilter',),), [Node('map', (('FRaiseIf', notp, 'EFilter', 7, ('FId',)),), [src()])]))
     return out
 
